@@ -196,6 +196,11 @@ void run_program(void* arg,int){
       else{
         sched_yield(SITE_RECV);
         bool keep=o["keep"].as_bool(false);
+        if(o["light"].as_bool(false)){
+          // the receiver only reads the vector and releases it: it never allocates that dimension itself, so the block enters a cache this thread
+          // has not used for anything else
+          R.rc=lib_call([&]{ R.hash=hash_doubles(&(*v)[0],v->Size()); delete v; v=0; },0);
+        }else
         R.rc=lib_call([&]{
           squids::SU_vector mine(v->Dim()); mine=(*v)*2.0;       // use it with this thread's own storage
           (*v)+=mine;
@@ -281,7 +286,7 @@ struct ThreadEngine: Engine{
       Json o=Json::object(); o["vs"]=(long long)r.below(100000000); o["d"]=same_dim?same_dim:r.range(2,6);
       int k=(int)r.weighted({18,18,12,10,12,8,18,4,12});
       if(k==5 && !pending.empty()){ // receive a pending message sent by another thread
-        size_t pick=r.below(pending.size()); if(pending[pick].second==t){ k=0; } else { o["op"]="recv"; o["msg"]=pending[pick].first; o["keep"]=r.chance(0.3); pending.erase(pending.begin()+pick); progs[t].push(o); continue; }
+        size_t pick=r.below(pending.size()); if(pending[pick].second==t){ k=0; } else { o["op"]="recv"; o["msg"]=pending[pick].first; o["keep"]=r.chance(0.3); o["light"]=r.chance(0.35); pending.erase(pending.begin()+pick); progs[t].push(o); continue; }
       }
       switch(k){
         case 0: o["op"]="vec"; break;
